@@ -362,9 +362,13 @@ func (x *Exec) resultVal(st *State, sig *types.Signature, prefix string) Val {
 func (x *Exec) callWith(f *frame, in ssa.Instruction, c *ssa.CallCommon, args []Val, deferred bool) Val {
 	st := f.st
 	if b, ok := c.Value.(*ssa.Builtin); ok {
+		if !strings.HasPrefix(b.Name(), "ssa:") {
+			x.siteAssertions(st, in, b.Name(), args)
+		}
 		return x.builtinCall(f, b, in, c, args)
 	}
 	if c.IsInvoke() {
+		x.siteAssertions(st, in, c.Method.Name(), args)
 		if v, ok := x.externInvoke(f, in, c, args); ok {
 			return v
 		}
@@ -397,25 +401,7 @@ func (x *Exec) callWith(f *frame, in ssa.Instruction, c *ssa.CallCommon, args []
 		return x.resultVal(st, c.Signature(), "dyn")
 	}
 	key := funcKey(callee)
-	x.calls[callee.Name()]++
-	site := fmt.Sprintf("%s#%d", callee.Name(), x.calls[callee.Name()])
-	// call-site assertions of the caller's contract
-	if x.fc != nil {
-		for _, ca := range x.fc.CallAsrt {
-			if ca.Site == site || ca.Site == callee.Name() && x.calls[callee.Name()] == 1 {
-				ov := map[string]dual{}
-				for i, p := range callee.Params {
-					if i < len(args) {
-						ov["arg"+fmt.Sprint(i)] = dualOf(args[i])
-						_ = p
-					}
-				}
-				t := x.evalClauseDual(ca, x.fn, st, x.entry, nil, false, ov)[0].T
-				o := x.oblige(st, "assert", fmt.Sprintf("assert:%s", ca.Site), t, in.Pos(), false, x.props())
-				o.Clause, o.Line = ca.Text, ca.Line
-			}
-		}
-	}
+	site := x.siteAssertions(st, in, callee.Name(), args)
 	if fc := x.L.FuncCon[key]; fc != nil && !fc.Inline {
 		return x.callContract(f, in, callee, fc, args, site)
 	}
@@ -500,6 +486,13 @@ func (x *Exec) callContract(f *frame, in ssa.Instruction, callee *ssa.Function, 
 		x.havocTop(st)
 	}
 	res := x.resultVal(st, callee.Signature, "res_"+sanitize(callee.Name()))
+	if fc.Pure {
+		// a pure function of value arguments: its result is the application of an
+		// uninterpreted function symbol, so that two calls with equal arguments agree
+		if pf, ok := x.pureFuncApp(callee, args); ok {
+			x.assume(st, eq(res.T, pf))
+		}
+	}
 	var results []Val
 	if len(res.Tu) > 0 {
 		results = res.Tu
@@ -562,7 +555,7 @@ func eqMode(a, b modEntry) bool { return a.obj == b.obj && a.elem == b.elem }
 func (x *Exec) builtinCall(f *frame, b *ssa.Builtin, in ssa.Instruction, c *ssa.CallCommon, args []Val) Val {
 	st := f.st
 	switch b.Name() {
-	case "len", "cap", "min", "max":
+	case "len", "cap", "min", "max", "ssa:deferstack":
 		v := in.(ssa.Value)
 		return Val{T: f.builtinPure(b, v, args)}
 	case "append":
